@@ -84,7 +84,18 @@ class ObjectFactory:
         else:
             raise TypeError("core certificate type not supported")
 
+    def _check_key_block(self, key_block):
+        # The Key Block may leave these parts out (the encoding permits it);
+        # the server cannot store a key without them.
+        if key_block.cryptographic_algorithm is None:
+            raise TypeError("the key block has no cryptographic algorithm")
+        if key_block.cryptographic_length is None:
+            raise TypeError("the key block has no cryptographic length")
+        if key_block.key_value is None:
+            raise TypeError("the key block has no key value")
+
     def _build_pie_key(self, key, cls):
+        self._check_key_block(key.key_block)
         algorithm = key.key_block.cryptographic_algorithm.value
         length = key.key_block.cryptographic_length.value
         value = key.key_block.key_value.key_material.value
@@ -130,6 +141,7 @@ class ObjectFactory:
         return pobjects.OpaqueObject(value, opaque_type)
 
     def _build_pie_split_key(self, secret):
+        self._check_key_block(secret.key_block)
         algorithm = secret.key_block.cryptographic_algorithm.value
         return pobjects.SplitKey(
             cryptographic_algorithm=algorithm,
